@@ -75,10 +75,12 @@ def gen(rng, tier):
                     c["from"] = TG.replace_at(cfg, pth, A(L[:k])); c["merges"] = [{"b": nestp(A(L)), "opts": []}]
                 c["_tag"] += "+grown"
                 c["_sig"] += "|grown-" + how
-        elif rng.chance(0.2):
+        elif rng.chance(0.2) or (rng.chance(0.6) and any(len(pth) >= 2 and tuple(path[:len(pth)]) == tuple(pth) for pth, _ in list_positions(cfg, minlen=1))):
             # one list of an object below the root arrives by a Merge through a handle on that object (Child): its elements
-            # belong to the place the handle stands for, and so do the paths of their faults
-            lists = [(pth, L) for pth, L in list_positions(cfg) if len(pth) >= 2]
+            # belong to the place the handle stands for, and so do the paths of their faults (preferably the list with the fault)
+            lists = [(pth, L) for pth, L in list_positions(cfg, minlen=1) if len(pth) >= 2]
+            hit = [x for x in lists if tuple(path[:len(x[0])]) == tuple(x[0])]
+            lists = hit or lists
             if lists:
                 pth, L = rng.pick(lists)
                 c["from"] = TG.replace_at(cfg, pth, A([]))
@@ -111,6 +113,52 @@ def gen(rng, tier):
         yield c
     yield from gen_api_errors(rng.fork("api"), n // 5)
     yield from gen_unpackers(rng.fork("unpackers"), n // 5)
+    yield from gen_via_child(rng.fork("via-child"), n // 10)
+
+
+def gen_via_child(rng, n):
+    """a list (of numbers or of objects) merged into an object below the root through a handle on that object, one element
+    faulty: the error names the element's path from the root"""
+    for _ in range(n):
+        k1, k2 = rng.pick(["output", "srv", "a"]), rng.pick(["ports", "hosts", "l"])
+        objs = rng.chance(0.5)
+        if objs:
+            ety = TG.T("struct", f=[{"n": "W", "tag": "w", "v": "", "ty": TG.T("int8")}, {"n": "N", "tag": "n", "v": "", "ty": TG.T("string")}])
+            good = lambda i: M([("w", U(1 + i)), ("n", S("h%d" % i))])
+            bad = M([("w", rng.pick([U(300), S("x"), M([("zz", U(1))])])), ("n", S("b"))])
+            suffix = ".w"
+        else:
+            ety = TG.T("uint8")
+            good = lambda i: U(1 + i)
+            bad = rng.pick([U(300), {"i": "-2"}, S("x")])
+            suffix = ""
+        L = [good(i) for i in range(1 + rng.below(3))]
+        pos = rng.below(len(L) + 1)
+        L.insert(pos, bad)
+        inner = TG.T("struct", f=[{"n": "L", "tag": k2, "v": "", "ty": TG.T("slice", e=ety)}, {"n": "Z", "tag": "z", "v": "", "ty": TG.T("int")}])
+        deep = rng.chance(0.3)
+        if deep:
+            ty = TG.T("struct", f=[{"n": "O", "tag": "top", "v": "", "ty": TG.T("struct", f=[{"n": "I", "tag": k1, "v": "", "ty": inner}])}])
+            frm = M([("top", M([(k1, M([("z", U(1))]))]))]); at = "top." + k1
+        else:
+            ty = TG.T("struct", f=[{"n": "O", "tag": k1, "v": "", "ty": inner}])
+            frm = M([(k1, M([("z", U(1))]))]); at = k1
+        full = at + "." + k2
+        valid_list = A([x for i, x in enumerate(L) if i != pos])
+        def nest(pathstr, v):
+            for seg in reversed(pathstr.split(".")):
+                v = M([(seg, v)])
+            return v
+        c = {"k": "unpack", "ty": ty, "old": None, "from": frm, "copts": [opt("PathSep", ".")], "uopts": [opt("PathSep", ".")],
+             "merges": [{"at": at, "b": M([(k2, A(L))]), "opts": rng.pick([[], [opt("Append")], [opt("Prepend")]])}],
+             "validFrom": nest(at, M([("z", U(1)), (k2, valid_list)])),
+             "faultPath": "%s.%d%s" % (full, pos, suffix), "strictErr": False,
+             "_tag": "fault/via-child-directed", "_nt": True, "_sig": "viachild|%s|%s|%d|%d" % (objs, deep, pos, len(L))}
+        if rng.chance(0.4):
+            src = rng.pick(["conf.yml", "in-memory"])
+            c["merges"][0]["opts"] = c["merges"][0]["opts"] + [{"o": "MetaData", "v": src}]
+            c["source"] = src
+        yield c
 
 
 def gen_unpackers(rng, n):
@@ -221,14 +269,14 @@ def drop_key(cfg, path):
     return M([(k, drop_key(v, path[1:]) if k == path[0] else v) for k, v in cfg["m"]])
 
 
-def list_positions(cfg, path=()):
-    """lists with at least two elements reachable through dictionaries only: [(path of keys, elements)]"""
+def list_positions(cfg, path=(), minlen=2):
+    """lists with at least minlen elements reachable through dictionaries only: [(path of keys, elements)]"""
     out = []
     if isinstance(cfg, dict) and "m" in cfg:
         for k, v in cfg["m"]:
-            if isinstance(v, dict) and "a" in v and len(v["a"]) >= 2:
+            if isinstance(v, dict) and "a" in v and len(v["a"]) >= minlen:
                 out.append((path + (k,), v["a"]))
-            out += list_positions(v, path + (k,))
+            out += list_positions(v, path + (k,), minlen)
     return out
 
 
